@@ -72,10 +72,42 @@ func loadAppDB(c *core.Ctx) *appDBFacts {
 				continue
 			}
 			key, _ := constString(s.Arg(0))
+			if key == "" {
+				// the key is a parameter of a helper (`loadUint64(path string, …)`): one access
+				// per call of the helper, with the key passed there, attributed to the caller
+				if pi := paramIndexOf(root, s.Arg(0)); pi >= 0 {
+					found := false
+					for _, cl := range c.SrcFuncs(pkgAppDB) {
+						for _, cs := range core.Sites(cl) {
+							if cs.Common.StaticCallee() != root || pi >= len(cs.Common.Args) {
+								continue
+							}
+							if k, ok := constString(cs.Common.Args[pi]); ok {
+								f.Accesses = append(f.Accesses, &dbAccess{Fn: cl, Site: cs, Write: name != "Get", Key: k})
+								found = true
+							}
+						}
+					}
+					if found {
+						continue
+					}
+				}
+			}
 			f.Accesses = append(f.Accesses, &dbAccess{Fn: fn, Site: s, Write: name != "Get", Key: key})
 		}
 	}
 	return f
+}
+
+// paramIndexOf: v is (a []byte conversion of) parameter i of fn; -1 otherwise.
+func paramIndexOf(fn *ssa.Function, v ssa.Value) int {
+	v = core.Unwrap(v)
+	for i, p := range fn.Params {
+		if v == ssa.Value(p) {
+			return i
+		}
+	}
+	return -1
 }
 
 // keys returns the distinct constant keys used.
